@@ -130,4 +130,39 @@ mod verif_demo_c06_vbadec_vba {
         assert_eq!(m[0].text_offset, 0x10);
         assert!(r.is_empty());
     }
+    #[test]
+    #[should_panic]
+    fn verif_demo_vbadec_references_control_truncated_size() {
+        // REFERENCECONTROL id 0x002F, then only 1 byte of SizeTwiddled: &stream[4..]
+        let mut r: &[u8] = &[0x2F, 0x00, 0x01];
+        let _ = Reference::from_stream(&mut r, &enc());
+    }
+    #[test]
+    #[should_panic]
+    fn verif_demo_vbadec_references_registered_truncated_reserved() {
+        // REFERENCEREGISTERED id 0x000D, size u32, libid record of size 0, then only 2 of the 6 reserved bytes: &stream[6..]
+        let mut r: &[u8] = &[0x0D, 0x00, 0, 0, 0, 0, 0, 0, 0, 0, 0xAA, 0xBB];
+        let _ = Reference::from_stream(&mut r, &enc());
+    }
+    #[test]
+    #[should_panic]
+    fn verif_demo_vbadec_references_control_truncated_tail() {
+        // REFERENCECONTROL: id, SizeTwiddled, libid (size 0), 6 reserved, id 0x0030, SizeExtended, libid (size 0), then 3 of the 26 tail bytes
+        let mut v = vec![0x2F, 0x00, 0, 0, 0, 0, 0, 0, 0, 0, 0, 0, 0, 0, 0, 0, 0x30, 0x00, 0, 0, 0, 0, 0, 0, 0, 0];
+        v.extend_from_slice(&[1, 2, 3]);
+        let mut r: &[u8] = &v;
+        let _ = Reference::from_stream(&mut r, &enc()); // &stream[26..]
+    }
+    #[test]
+    fn verif_demo_vbadec_references_control_ok() {
+        // control: REFERENCENAME "Lib" + unicode, REFERENCEREGISTERED with libid "a#b#c", terminator 0x000F
+        let mut v = vec![0x16, 0x00, 3, 0, 0, 0, b'L', b'i', b'b', 0x3E, 0x00, 0, 0, 0, 0];
+        v.extend_from_slice(&[0x0D, 0x00, 0, 0, 0, 0, 5, 0, 0, 0, b'a', b'#', b'b', b'#', b'c', 0, 0, 0, 0, 0, 0]);
+        v.extend_from_slice(&[0x0F, 0x00]);
+        let mut r: &[u8] = &v;
+        let refs = Reference::from_stream(&mut r, &enc()).unwrap();
+        assert_eq!(refs.len(), 1);
+        assert_eq!(refs[0].name, "Lib");
+        assert!(r.is_empty());
+    }
 }
